@@ -8,6 +8,7 @@ peer's publisher / handler future is cancelled in the section that handles CANCE
 Production stops: the library's four stream sources behind a real responder, CANCEL arriving in the same read as the request
 (before any producer task ran) or any number of loop iterations later: the source is not pulled again and nothing more
 is sent (model: C09_source_cancel_* over model/Publisher.v)."""
+from harness import internals
 import logging
 import random
 
@@ -61,7 +62,7 @@ def oracle(sc):
             if after:
                 out.append(E.failure('delivered-after-cancel', sc, oid=oid, kind=kind, step=after[0][0],
                                      what_delivered=repr(after[0][1])[:120],
-                                     sending_open=bool(getattr(obj, '_sent_complete', True) is False)))
+                                     sending_open=bool(internals.channel_direction_closed(obj, 'sent') is False)))
         elif lab[0] == 'recv' and lab[1]['t'] == 'Cancel':
             sid = lab[1]['sid']
             # which responder object had the stream at that moment?
@@ -237,7 +238,7 @@ def run_cancel_source(kind, n_items, credit, channel, lenreq, ticks):
             r = await orig(frame, table)
             if type(frame).__name__ == 'CancelFrame':
                 mark['pulled'] = len(pulled)
-                mark['queued'] = s._send_queue.qsize()
+                mark['queued'] = internals.send_queue(s).qsize()
                 mark['sent'] = len(t.sent)
             return r
         s._handle_next_frame = wrapped
